@@ -22,6 +22,7 @@ S_CELLS = [
     ("o_derived", "lambda: bo()", True),
     ("o_item", "lambda: Pref[1].h(2)", True),
     ("o_item_child", "lambda: Pref(2).PC.pc()", True),
+    ("o_us", "lambda: USref.uu() + USref.uc() + 1", True),
 ]
 OBSERVERS = [n for n, _, _ in S_CELLS if n.startswith("o_")]
 VALUES = ["g", "h", "bx", "x", "y", "sh", "z", "k"]
@@ -51,9 +52,19 @@ class Rich:
             QQ = self.QQ = m.new_space("QQ", formula="lambda n: None")   # same, with a child space
             QQ.new_cells("qh", formula="lambda t: n * t")
             QQ.new_space("QC").new_cells("qc", formula="lambda: n + 1")
+            PP = self.PP = m.new_space("PP")                              # its CHILD space is the base of another space
+            PC2 = PP.new_space("PC2")
+            PC2.kk = 1
+            PC2.new_cells("cf", formula="lambda: kk + 1")
+            QD = self.QD = m.new_space("QD", bases=PC2)
+            QD2 = self.QD2 = m.new_space("QD2", bases=QD)
             S = self.S = m.new_space("S", bases=Base)
             S.x, S.y, S.hh = vals["x"], vals["y"], vals["sh"]
             S.Pref = P
+            US = self.US = m.new_space("US")                              # another space, reached through a reference: uncached + cached cells
+            US.new_cells("uu", formula="lambda: 5", is_cached=False)
+            US.new_cells("uc", formula="lambda: 7")
+            S.USref = US
             Sub = self.Sub = S.new_space("Sub")
             Sub.z = vals["z"]
             Sub.new_cells("sc", formula="lambda: z + 1")
